@@ -70,14 +70,14 @@ theorem op_div (x y : ℚ) (hy : y ≠ 0) (isInt dom : Bool) :
   simp [Op.cell, hy]
 
 /-- **C06 (coordinate variables pass through).** -/
-theorem coords_passthrough (op : Op) (f2 : File) (coords : List String) (v : Var)
-    (h : coords.contains v.name = true) : binopVar op f2 coords v = v := by
+theorem coords_passthrough (op : Op) (f1 f2 : File) (coords : List String) (v : Var)
+    (h : coords.contains v.name = true) : binopVar op f1 f2 coords v = v := by
   unfold binopVar
   rw [if_pos h]
 
 /-- a variable missing in the right operand is copied from the left -/
-theorem missing_right_copied (op : Op) (f2 : File) (coords : List String) (v : Var)
-    (h : f2.var? v.name = none) : binopVar op f2 coords v = v := by
+theorem missing_right_copied (op : Op) (f1 f2 : File) (coords : List String) (v : Var)
+    (h : f2.var? v.name = none) : binopVar op f1 f2 coords v = v := by
   unfold binopVar
   split
   · rfl
@@ -85,17 +85,17 @@ theorem missing_right_copied (op : Op) (f2 : File) (coords : List String) (v : V
 
 theorem maskHit_iff (m : MaskSpec) (w : Cell) (x : ℚ) :
     maskHit m w x = true ↔
-      (w = some 1 ∨ (∃ g, m.greater = some g ∧ x > g) ∨ (∃ g, m.greaterEq = some g ∧ x ≥ g) ∨
+      (w = some 1 ∨ w = some 2 ∨ (∃ g, m.greater = some g ∧ x > g) ∨ (∃ g, m.greaterEq = some g ∧ x ≥ g) ∨
        (∃ g, m.less = some g ∧ x < g) ∨ (∃ g, m.lessEq = some g ∧ x ≤ g) ∨ (∃ g, m.equal = some g ∧ g = x)) := by
   unfold maskHit
   cases m.greater <;> cases m.greaterEq <;> cases m.less <;> cases m.lessEq <;> cases m.equal <;>
     simp [or_assoc]
 
 /-- **C06 (mask, exactness).** A cell is masked afterwards iff it was masked before or satisfies
-one of the given predicates (or the `where` array); an unmasked cell keeps its value exactly. -/
+one of the given predicates (or the `where` array is true or masked there); an unmasked cell keeps its value exactly. -/
 theorem mask_exact (m : MaskSpec) (w : Cell) (x : ℚ) :
     (maskCell m w (some x) = none ↔
-      (w = some 1 ∨ (∃ g, m.greater = some g ∧ x > g) ∨ (∃ g, m.greaterEq = some g ∧ x ≥ g) ∨
+      (w = some 1 ∨ w = some 2 ∨ (∃ g, m.greater = some g ∧ x > g) ∨ (∃ g, m.greaterEq = some g ∧ x ≥ g) ∨
        (∃ g, m.less = some g ∧ x < g) ∨ (∃ g, m.lessEq = some g ∧ x ≤ g) ∨ (∃ g, m.equal = some g ∧ g = x))) ∧
     (∀ y, maskCell m w (some x) = some y → y = x) ∧ maskCell m w none = none := by
   refine ⟨?_, ?_, rfl⟩
